@@ -149,6 +149,9 @@ def hypsB (K1 : Bytes) (db : DB) (absent : List Bytes) : Bool :=
   db.all (fun p => p.2.all fun id => (db.flatMap (·.2)).count id ≤ cfg.max) &&
   db.all (fun p => p.2.length ≤ cfg.n.toNat && (p.2.length == cfg.n.toNat || fresh p.1 (1 + p.2.length))) &&
   absent.all (fun w => fresh w 1) &&
+  -- `SSE2.absent_correct`: an absent keyword is a valid keyword that is not in the database
+  absent.all (fun w => w.length ≤ cfg.l.toNat && (match w with | x :: _ => x != 0 | [] => false) &&
+    !(db.map (·.1)).contains w) &&
   (match encDb cfg lv K1 db [] [] with | .ok (_, cnt) => cnt.all (fun p => p.2 ≤ cfg.max) | .error _ => false)
 
 end SSE2
